@@ -2595,7 +2595,10 @@ class AggregateBase(UnitsManaged, Saveable, OpenSystem):
 
 
         if temp == 0.0:
-            rho0[start,start] = 1.0
+            # zero temperature limit: the lowest state is populated
+            imin = start + numpy.argmin([numpy.real(HH[i,i]
+                           - subtract[i-start]) for i in range(start, dim)])
+            rho0[imin,imin] = 1.0
 
         else:
             # FIXME: we assume only single exciton band
